@@ -92,7 +92,8 @@ func (r *Recorder) hook(event string, name string) {
 	}
 	slow, slowRecover := r.SlowSnapshot, r.SlowRecover
 	r.mu.Unlock()
-	if slow > 0 && (event == "sm-save-enter" || event == "sm-prepare-enter") {
+	if slow > 0 && (event == "sm-save-enter" || event == "sm-prepare-enter" || event == "sm-prepare-exit") {
+		// (sm-prepare-exit: PrepareSnapshot is slow after it captured its point in time image)
 		time.Sleep(slow)
 	}
 	if slowRecover > 0 && event == "sm-recover-enter" {
